@@ -4,7 +4,7 @@
 From V Require Import model.Base model.Obs model.RingQueue model.SlotMap model.FlatMap.
 Open Scope N_scope.
 
-Theorem fmap_error_unchanged dev s o s' e d : fmap_step dev s o = (s', OErr e, d) -> s' = s.
+Theorem fmap_error_unchanged s o s' e d : fmap_step s o = (s', OErr e, d) -> s' = s.
 Proof.
   destruct o; cbn [fmap_step]; intros H;
     repeat match type of H with context [match ?x with _ => _ end] => destruct x end; inversion H; reflexivity.
@@ -42,11 +42,10 @@ Qed.
 
 Fixpoint fm_run (m : slotmap) (ops : list fop) : list (obs * list N) :=
   match ops with [] => [] | o :: t => let '(m', ob, d) := fm_step m o in (ob, d) :: fm_run m' t end.
-Fixpoint fmap_run (dev : bool) (s : fmap) (ops : list fop) : list (obs * list N) :=
-  match ops with [] => [] | o :: t => let '(s', ob, d) := fmap_step dev s o in (ob, d) :: fmap_run dev s' t end.
+Fixpoint fmap_run (s : fmap) (ops : list fop) : list (obs * list N) :=
+  match ops with [] => [] | o :: t => let '(s', ob, d) := fmap_step s o in (ob, d) :: fmap_run s' t end.
 
-(* the clause as stated (all capacities) is false of the faithful model: FlatMap::new(0).insert panics *)
-Definition fm_refines_full : Prop := forall c ops,
-  map fst (fm_run (sm_new c) ops) = map fst (fmap_run false (fmap_new c) ops).
-Theorem fm_refines_refuted : ~ fm_refines_full.
-Proof. intros H. specialize (H 0 [FInsert 0 1]). vm_compute in H. discriminate. Qed.
+(* regression history: FlatMap::new(0).insert used to panic (fixed in /repo by 6ffc44e) *)
+Lemma fm_regression_cap0 :
+  map fst (fm_run (sm_new 0) [FInsert 0 1; FGet 0; FRemove 0]) = [OErr EIsFull; OO None; OO None].
+Proof. reflexivity. Qed.
